@@ -243,6 +243,29 @@ def generate():
     rtxt = ast.unparse(ret[0].value) if len(ret) == 1 else ''
     want = ['r2=pcc ** 2', 'rmse=rmse', 'rrmse=rrmse', 'n=int(mask_sum)']
     out.append(f'Definition gen_cmp_returns_ok : bool := {"true" if all(w in rtxt for w in want) else "false"}.')
+    # ---------------------------------------------------------------- compare.get_block_sums: the per-pixel term of every sum, the joint mask
+    f = find_func(cm, 'RasterCompare', 'process', 'get_block_sums')
+    sd = [c for c in ast.walk(f) if isinstance(c, ast.Call) and ast.unparse(c.func) == 'dict' and any(k.arg == 'res2_sum' for k in c.keywords)]
+    if len(sd) != 1:
+        raise TranslatorError('get_block_sums: sums dict')
+    pix = {'src_array': 'x', 'ref_array': 'y'}
+    want_keys = ['src_sum', 'ref_sum', 'src2_sum', 'ref2_sum', 'src_ref_sum', 'res2_sum', 'mask_sum']
+    kwd = {k.arg: k.value for k in sd[0].keywords}
+    if sorted(kwd) != sorted(want_keys):
+        raise TranslatorError(f'get_block_sums: keys {sorted(kwd)}')
+    for key in want_keys[:-1]:
+        v = kwd[key]
+        if not (isinstance(v, ast.Call) and isinstance(v.func, ast.Attribute) and v.func.attr == 'sum' and not v.args):
+            raise TranslatorError(f'get_block_sums: {key} is not <expr>.sum()')
+        emit('cmp_term_' + key, pix, v.func.value, ['x', 'y'])
+    okm = ast.unparse(kwd['mask_sum']) == 'mask.sum()' and ast.unparse(one := [n.value for n in ast.walk(f) if isinstance(n, ast.Assign) and ast.unparse(n.targets[0]) == 'mask'][0]) in ('ref_ra.mask & src_ra.mask', 'src_ra.mask & ref_ra.mask')
+    zero = sorted(ast.unparse(n) for n in ast.walk(f) if isinstance(n, ast.Assign) and ast.unparse(n.targets[0]) in ('src_array[~mask]', 'ref_array[~mask]'))
+    okm = okm and zero == ['ref_array[~mask] = 0', 'src_array[~mask] = 0']
+    out.append(f'Definition gen_cmp_joint_mask_ok : bool := {"true" if okm else "false"}.   (* mask = both valid; both arrays zeroed outside it; N = mask.sum() *)')
+    # accumulation over blocks: per band, key by key, image_sums[band][k] += block[k]
+    acc = [ast.unparse(n.value) for n in ast.walk(find_func(cm, 'RasterCompare', 'process')) if isinstance(n, ast.Assign) and ast.unparse(n.targets[0]) == 'image_sums[block_pair.band_i]']
+    oka = acc == ['{k: image_sums[block_pair.band_i].get(k, 0) + v for k, v in block_sums_dict.items()}']
+    out.append(f'Definition gen_cmp_accumulate_ok : bool := {"true" if oka else "false"}.')
     # ---------------------------------------------------------------- stats._get_image_stats
     sm = ast.parse((REPO / 'homonim' / 'stats.py').read_text())
     f = find_func(sm, 'ParamStats', '_get_image_stats')
@@ -264,6 +287,37 @@ def generate():
     if len(v) != 1:
         raise TranslatorError('_get_image_stats: inpaint_p')
     emit('st_inpaint_p', STATS_NAMES, v[0], sorder)
+    # ---------------------------------------------------------------- stats.get_block_sums: per-pixel terms, the in-paint count, which bands, accumulation
+    f = find_func(sm, 'ParamStats', 'stats', 'get_block_sums')
+    bd = one = [n.value for n in ast.walk(f) if isinstance(n, ast.Assign) and ast.unparse(n.targets[0]) == '_block_dict']
+    if len(bd) != 1 or not isinstance(bd[0], ast.Call):
+        raise TranslatorError('stats.get_block_sums: _block_dict')
+    kwd = {k.arg: k.value for k in bd[0].keywords}
+    if sorted(kwd) != ['max', 'min', 'n', 'sum', 'sum2']:
+        raise TranslatorError(f'stats.get_block_sums: keys {sorted(kwd)}')
+    for key in ('sum', 'sum2'):
+        v = kwd[key]
+        if not (isinstance(v, ast.Call) and isinstance(v.func, ast.Attribute) and v.func.attr == 'sum' and not v.args):
+            raise TranslatorError(f'stats.get_block_sums: {key}')
+        emit('st_term_' + key, {'array': 'x'}, v.func.value, ['x'])
+    okb = [ast.unparse(kwd[k2]) for k2 in ('min', 'max', 'n')] == ['array.min()', 'array.max()', 'array.count()']
+    rd = [ast.unparse(n.value) for n in ast.walk(f) if isinstance(n, (ast.Assign, ast.AnnAssign)) and ast.unparse(n.target if isinstance(n, ast.AnnAssign) else n.targets[0]) == 'array']
+    okb = okb and len(rd) == 1 and 'masked=True' in rd[0] and "out_dtype='float64'" in rd[0] and 'indexes=band_i + 1' in rd[0] and 'window=block_win' in rd[0]
+    out.append(f'Definition gen_st_block_ok : bool := {"true" if okb else "false"}.    (* masked float64 read of one band window; min, max, count of the valid values *)')
+    upd = [c for c in ast.walk(f) if isinstance(c, ast.Call) and ast.unparse(c.func) == '_block_dict.update']
+    oki = len(upd) == 1 and ast.unparse(upd[0]) == '_block_dict.update(inpaint_sum=(array < self._r2_inpaint_thresh).sum())'
+    out.append(f'Definition gen_st_inpaint_is_strictly_below : bool := {"true" if oki else "false"}.')
+    cond = [n for n in ast.walk(f) if isinstance(n, ast.If) and any(c is upd[0] for c in ast.walk(n))] if upd else []
+    ctxt = ast.unparse(cond[0].test) if len(cond) == 1 else ''
+    okc = ctxt == 'self._model == Model.gain_offset and self._r2_inpaint_thresh is not None and (band_i >= self._param_im.count * 2 / 3)'
+    out.append(f'Definition gen_st_inpaint_bands_ok : bool := {"true" if okc else "false"}.   (* gain-offset, threshold recorded, 0-based band >= count * 2 / 3 *)')
+    fs = find_func(sm, 'ParamStats', 'stats')
+    up = [ast.unparse(c) for c in ast.walk(fs) if isinstance(c, ast.Call) and ast.unparse(c.func) == 'image_accum[band_i].update']
+    want = ["min=np.nanmin((image_accum[band_i].get('min', np.inf), block_dict['min']))", "max=np.nanmax((image_accum[band_i].get('max', -np.inf), block_dict['max']))",
+            "sum=np.nansum((image_accum[band_i].get('sum', 0), block_dict['sum']))", "sum2=np.nansum((image_accum[band_i].get('sum2', 0), block_dict['sum2']))",
+            "n=np.nansum((image_accum[band_i].get('n', 0), block_dict['n']))", "inpaint_sum=np.nansum((image_accum[band_i].get('inpaint_sum', 0), block_dict['inpaint_sum']))"]
+    oku = len(up) == 2 and all(w in ''.join(up) for w in want)
+    out.append(f'Definition gen_st_accumulate_ok : bool := {"true" if oku else "false"}.    (* min / max / sums folded block by block from inf / -inf / 0 *)')
     return out
 
 
